@@ -15,8 +15,16 @@ CFG_ALL = {"ENABLE_COMMENTS": 1, "ENABLE_NAN": 1, "ENABLE_INFINITY": 1}
 CFG_NOUNI = {"DECODE_UNICODE": 0}
 
 PROPS = {}
+HOOK_COMMITS = []
+NOT_APPLICABLE = {}
 
 PROPS["C17"] = {
+    "level_text": "Theorems (for every code point / byte): Utf8::encodeCodepoint is UTF-8, decodeHex is right on every hex digit in both cases, "
+                  "surrogate recombination yields the code point, the serializer's escape table is inverted by the deserializer's, and bytes other than "
+                  "the eight special ones are emitted verbatim. The tables are regenerated from /repo on every run. The composition through the string "
+                  "parser is tied by an exhaustive differential run (all code units, pairs, bytes and byte pairs) of the real library against the model.",
+    "level_note": "Lean kernel; axioms propext/Quot.sound/Classical.choice only; model = hand translation validated exhaustively on this domain; "
+                  "position independence inside parseQuotedString is covered by the correspondence, not by a theorem yet",
     "theorems": ["C17.encodeCodepoint_eq_utf8", "C17.decodeHex_hex", "C17.surrogate_pair", "C17.unescape_escape", "C17.escape_minimal"],
     "suites": lambda tier: [S.UniSuite(cfg=DEF)],
     "exhaustive": True,
